@@ -18,4 +18,6 @@ pub use tests::gen_structure;
 #[derive(Clone, Copy, Debug, PartialEq, Eq, PartialOrd, Ord)]
 pub enum Version {
     V1,
+    /// V2 adds the next attribute ID to the serialization of the access structure.
+    V2,
 }
